@@ -106,7 +106,7 @@ def main() -> int:
                     break
                 seed = derive_seed(master, batch["engine"], batch.get("label", ""), i)
                 rng = make_rng(seed)
-                plan = engine.gen_plan(rng, profile, seed)
+                plan = engine.gen_plan(rng, dict(profile, _index=i), seed)
                 plan["seed"] = seed
                 plan["engine"] = batch["engine"]
                 plan["profile"] = profile
